@@ -64,7 +64,7 @@ func genC07(t *rapid.T) *c07Scenario {
 		UserLines:      rapid.SampledFrom([]int{10, 80, 300}).Draw(t, "user_lines"),
 		ServerReads:    rapid.SampledFrom([]string{"fast", "fast", "slow", "none"}).Draw(t, "server_reads"),
 		Cause:          rapid.SampledFrom([]string{"close", "close3", "eof", "readerr", "writeerr", "cancel"}).Draw(t, "cause"),
-		ReconnectFrom:  rapid.SampledFrom([]string{"handler", "goroutine", "watchdog"}).Draw(t, "reconnect_from"),
+		ReconnectFrom:  rapid.SampledFrom([]string{"handler", "goroutine", "watchdog", "both"}).Draw(t, "reconnect_from"),
 	}
 	if sc.InBacklog > 0 {
 		sc.InBacklog += rapid.IntRange(0, 9).Draw(t, "in_backlog_off")
@@ -117,15 +117,21 @@ func runC07(sc *c07Scenario) *Violation {
 	discIdx := -1 // len(deliveries) when DISCONNECTED was entered
 	type reconn struct{ err error }
 	reconnCh := make(chan reconn, 4)
+	bothCh := make(chan error, 8)
 	discCh := make(chan struct{}, 8)
 	var cancelMu sync.Mutex
 	var cancelCur context.CancelFunc
 	connect := func() error {
 		ctx, cancel := context.WithCancel(context.Background())
+		err := tc.C.ConnectContext(ctx)
+		if err != nil {
+			cancel()
+			return err
+		}
 		cancelMu.Lock()
-		cancelCur = cancel
+		cancelCur = cancel // the context of the connection that is up
 		cancelMu.Unlock()
-		return tc.C.ConnectContext(ctx)
+		return nil
 	}
 	tc.C.HandleFunc("PRIVMSG", func(c *client.Conn, l *client.Line) {
 		var cy, n int
@@ -159,6 +165,12 @@ func runC07(sc *c07Scenario) *Violation {
 		again := int(curCycle.Load())+1 < sc.Cycles
 		if again && sc.ReconnectFrom == "handler" {
 			reconnCh <- reconn{connect()}
+		}
+		if again && sc.ReconnectFrom == "both" {
+			// belt and braces: the handler reconnects, and so does a supervisor goroutine it wakes; one of
+			// the two is told the client is connected already
+			go func() { bothCh <- connect() }()
+			bothCh <- connect()
 		}
 		discCh <- struct{}{}
 	}))
@@ -368,6 +380,23 @@ func runC07(sc *c07Scenario) *Violation {
 			if sc.ReconnectFrom == "goroutine" {
 				// another goroutine woken by the DISCONNECTED handler
 				go func() { reconnCh <- reconn{connect()} }()
+			}
+			if sc.ReconnectFrom == "both" {
+				ok := 0
+				for i := 0; i < 2; i++ {
+					select {
+					case err := <-bothCh:
+						if err == nil {
+							ok++
+						}
+					case <-time.After(bound):
+						return fail("cycle %d: a reconnect (handler and supervisor both trying) did not return", cycle)
+					}
+				}
+				if ok != 1 {
+					return fail("cycle %d: handler and supervisor both called Connect: %d succeeded, want exactly one", cycle, ok)
+				}
+				reconnCh <- reconn{nil}
 			}
 			select {
 			case r := <-reconnCh:
